@@ -5,11 +5,19 @@ use std::io::{BufRead, Write};
 
 mod util;
 mod ns;
+mod source;
+mod ruststr;
+mod pkgpath;
+mod heck;
 
 fn main() {
     let engine = std::env::args().nth(1).expect("engine");
     let f: fn(&str) -> String = match engine.as_str() {
         "ns" => ns::handle,
+        "source" => source::handle,
+        "ruststr" => ruststr::handle,
+        "pkgpath" => pkgpath::handle,
+        "heck" => heck::handle,
         other => panic!("unknown engine {other}"),
     };
     let stdin = std::io::stdin();
